@@ -135,6 +135,7 @@ func v2(v *vault) {
 	tv2 := env.Stable.GetParams(ctx).TotalValue
 	// bob's claim before: supply*TV/supply = TV ; after: supply*tv2/s2. Require supply*tv2 + tv2 >= (TV - 1)*s2
 	vrf.Assert(v.supply.Mul(tv2).Add(tv2).GTE(v.tv.SubRaw(1).Mul(s2)), "V2: a bond does not dilute the other lenders beyond one share's worth + 1")
+	vrf.Assert(tv2.Equal(v.tv.Add(amt)), "V2: the vault's value grows by exactly the deposit")
 }
 
 // Share supplies are bounded by 1e18 in the configuration set: the vault's rate has 18 decimal digits, so
@@ -210,6 +211,10 @@ func H_V2_UnbondDoesNotDiluteOthers() {
 		// the remaining s2 shares were worth s2*TV/S and are now worth tv2:
 		// tv2 >= s2*TV/S - (TV/S + 1)  <=>  tv2*S + TV + S >= s2*TV
 		vrf.Assert(tv2.Mul(v.supply).Add(v.tv).Add(v.supply).GTE(s2.Mul(v.tv)), "V2u: an unbond does not dilute the remaining lenders beyond one share's worth + 1")
+		// ... nor may it leave them a claim on value that is no longer there (the redemption rate must not jump up
+		// either: the next to leave would be paid with the last lenders' money): tv2*S <= s2*TV + TV + S
+		vrf.Assert(tv2.Mul(v.supply).LTE(s2.Mul(v.tv).Add(v.tv).Add(v.supply)), "V2u: an unbond does not inflate the remaining lenders' claim beyond one share's worth + 1")
+		vrf.Assert(tv2.Equal(v.tv.Sub(env.W.BalOf(alice, usdc))), "V2u: the vault's value falls by exactly what the unbond pays out")
 		return
 	}
 }
